@@ -159,10 +159,16 @@ class Scenario(sc.SockWorld):
         L = self.loop
         op = a[0]
         if op == "run":
-            L.turn()
+            if self.p.get("macro"):
+                L.settle()          # plan without deviations: intermediate turn boundaries cannot branch
+            else:
+                L.turn()
         elif op == "tick":
             L.advance_to(L.next_deadline())
-            L.turn()
+            if self.p.get("macro"):
+                L.settle()
+            else:
+                L.turn()
         elif op == "adv":
             self.nadv += 1
             nd = L.next_deadline()
@@ -200,14 +206,9 @@ class Scenario(sc.SockWorld):
         for t in self.net.conns:
             t.fail_after = None
         self.net.resolve_all(True)
-        bad = []
-
-        def chk():
-            v = oracle(self)
-            if v and not bad:
-                bad.append(v)
-        self.loop.run_until(self.loop.time() + 35.0, on_turn=chk)
-        return bad[0] if bad else oracle(self, final=True)
+        # the oracle is a function of the cumulative log: judging once at the end sees everything
+        self.loop.run_until(self.loop.time() + 35.0)
+        return oracle(self, final=True)
 
     def fp_extra(self):
         return super().fp_extra() + (self.nfault, self.nadv)
@@ -221,16 +222,17 @@ def run(tier, seed, part=None):
                        "after the transport was already lost do not",
                        "socket part only in this check; the per-command policy choice of the API objects is decided by C02-API part"]
     if tier == "quick":
-        plans = [({"max_send": 2, "max_fault": 3, "max_adv": 1}, 7, 1)]
+        plans = [({"max_send": 2, "max_fault": 3, "max_adv": 1}, 6, 0), ({"max_send": 2, "max_fault": 2, "max_adv": 1, "fail_chunks": [0, 2]}, 5, 1)]
         cap = 50
     else:
         plans = [({"max_send": 3, "max_fault": 6, "max_adv": 2}, 10, 1), ({"max_send": 2, "max_fault": 4, "max_adv": 2}, 8, 2)]
         cap = 900
     for gen in (4, 5):
         for extra, depth, dev in plans:
-            params = dict(gen=gen, **extra)
+            params = dict(gen=gen, macro=(dev == 0), **extra)
             res = explorer.explore(SPEC, params, depth, dev, time_cap=cap, seed=seed, label=f"at{gen}/{extra}/d{depth}/v{dev}")
             chk.add_explorer(f"at{gen}/socket", SPEC, params, res, {"depth": depth, "deviations": dev, **extra})
+    chk.add_audit(SPEC, {"gen": 4, "max_send": 2, "max_fault": 3, "max_adv": 1}, 5, 1, limit=4000 if tier == "thorough" else 600)
     from . import c02api
     c02api.run_part(chk, tier)
     return chk.finish()
